@@ -233,6 +233,9 @@ type seq struct {
 	mine        map[uuid.UUID]*internaltablist.Entry
 	dead        bool
 	lastPackets []string
+	// display names (normal-form keys) of the last backend upsert as Gate's own decoder and
+	// component conversion see them, by entry id
+	decodedDisplay map[uuid.UUID]string
 }
 
 func (s *seq) id() uuid.UUID { return s.pool[s.rng.Intn(len(s.pool))] }
@@ -386,6 +389,13 @@ func (s *seq) step(kind, detail string, class string, f func()) {
 		ce := cur.Entries[[16]byte(id)]
 		ge := gate[id]
 		switch {
+		case feedErr != nil && strings.Contains(feedErr.Error(), "Gate could not encode") && strings.Contains(feedErr.Error(), "snbt"):
+			// Gate's component-to-NBT encoder gave up on a display name (the defect C07 reports
+			// as "component-text-with-backslash"; such texts get here through display names
+			// Gate itself mis-converted from backend NBT): the model is ahead of the client.
+			s.violation("viewer-upsert/display-name-not-encodable-as-nbt", fmt.Sprintf("after %s (%s): %s", kind, detail, what), s.witness(map[string]any{"difference": what}))
+			s.dead = true
+			return
 		case feedErr != nil:
 			s.violation(kind+"/"+clause, fmt.Sprintf("after %s (%s): %s", kind, detail, what), s.witness(map[string]any{"difference": what}))
 			s.dead = true
@@ -397,7 +407,11 @@ func (s *seq) step(kind, detail string, class string, f func()) {
 				fmt.Sprintf("after %s Gate reports a profile for an entry that the client was never told about: %s", kind, det), s.witness(map[string]any{"difference": det}))
 			ce.Name, ce.Properties = ge.Profile().Name, gatevanilla.PropsOf(ge.Profile().Properties)
 			s.r.Count("carried_on_after_profile_defect", 1)
-		case clause == "display-name" && strings.HasPrefix(kind, "backend-") && ce != nil && ge != nil && s.p >= vanilla.P1_20_3:
+		case clause == "display-name" && strings.HasPrefix(kind, "backend-") && ce != nil && ge != nil && s.p >= vanilla.P1_20_3 &&
+			s.decodedDisplay[id] == gateView(s.p, ge).Display:
+			// the tab list holds exactly what Gate's packet decoder + NBT-to-component
+			// conversion made of the backend's display name: the difference to the wire is
+			// made there, not in the tab-list logic
 			g, c := gateView(s.p, ge).Display, clientView(s.p, ce).Display
 			sig := "backend-upsert/display-name-changed-by-nbt-to-component-conversion"
 			if strings.ReplaceAll(g, `t="<nil>"`, `t=""`) == c {
@@ -666,6 +680,12 @@ func (s *seq) backendUpsert() {
 			s.violation("backend-upsert/not-decodable-by-gate", "Gate cannot decode a vanilla player-info update: "+err.Error(), s.witness(map[string]any{"bytes": fmt.Sprintf("%x", body)}))
 			return
 		}
+		s.decodedDisplay = map[uuid.UUID]string{}
+		if up := pkt.(*playerinfo.Upsert); playerinfo.ContainsAction(up.ActionSet, playerinfo.UpdateDisplayNameAction) {
+			for _, e := range up.Entries {
+				s.decodedDisplay[e.ProfileID] = gatevanilla.CompOf(e.DisplayName.AsComponentOrNil()).Canon(s.p).Key()
+			}
+		}
 		if err := s.tl.ProcessUpdate(pkt.(*playerinfo.Upsert)); err != nil {
 			s.r.Count("process_update_errors", 1)
 		}
@@ -687,7 +707,7 @@ func TestC28(t *testing.T) {
 			protos = append(protos, int(p))
 		}
 	}
-	nSeq := r.N(2500, 160000)
+	nSeq := r.N(2500, 250000)
 	workers := 8
 	var wg sync.WaitGroup
 	var mu sync.Mutex
